@@ -4,7 +4,7 @@
 (* One state per descriptor (printed by the invariant Emit).                                  *)
 EXTENDS Integers, Sequences, TLC, Json
 
-CONSTANTS Ops, NPairs, Many, Starts, Counts, Bes, NChains
+CONSTANTS Ops, NPairs, Many, Starts, Counts, Bes, NChains, NSurg
 
 \* thread counts: 0 = the single-threaded entry point; counts that do not divide / exceed the number of items, oversubscription
 ThreadLists == IF Many THEN << <<0, 1, 2, 3, 5, 7, 8, 16, 31, 32, 33, 64>> >> ELSE << <<0>> >>
@@ -27,6 +27,10 @@ Next == /\ c.kind = "none"
                 /\ c' = [kind |-> "prep", be |-> be, ahi |-> Dict[p + 3][1], alo |-> Dict[p + 3][2], start |-> st, count |-> cn, threads |-> PrepThreads[t]]
            \/ \E be \in Bes, k \in 0..(NChains - 1) :
                 c' = [kind |-> "chain", be |-> be, ahi |-> Dict[(k % 9) + 9][1], alo |-> Dict[(k % 9) + 9][2], bhi |-> 0, blo |-> (k * 5) % 37, ops |-> ChainOps(k)]
+           \/ \E be \in Bes, op \in {"sext", "zero_byte", "splice_u8", "splice_u16", "get_bit"}, i0 \in 0..31, i1 \in 0..3, p \in 1..NSurg :
+                /\ (op = "sext" => i0 <= 2 /\ i1 = 0) /\ (op = "zero_byte" => i0 <= 3 /\ i1 = 0) /\ (op = "splice_u8" => i0 <= 3)
+                /\ (op = "splice_u16" => i0 <= 1 /\ i1 <= 1) /\ (op = "get_bit" => i1 = 0)
+                /\ c' = [kind |-> "surgery", op |-> op, be |-> be, i0 |-> i0, i1 |-> i1, ahi |-> Dict[p + 14][1], alo |-> Dict[p + 14][2], bhi |-> Dict[p + 4][1], blo |-> Dict[p + 4][2]]
            \/ \E be \in Bes, k \in 0..1 :
                 c' = [kind |-> "shared", be |-> be, ahi |-> Dict[16 + k][1], alo |-> Dict[16 + k][2], bhi |-> Dict[17][1], blo |-> Dict[17][2] + k,
                       ops |-> <<"add", "sub", "xor", "sll", "sltu", "and", "or", "sra">>, rounds |-> 3]
